@@ -20,7 +20,7 @@ from spec.c14 import *
 # order of RealFloat values on the ghost grid G = ghost('grid', 0): for any G below both exponents,
 # x OP y  <=>  Z_G(x) OP Z_G(y).  (RealFloat x RealFloat; float operands are inlined from source.)
 
-class RealFloat___gt__(Contract):
+class C14h_RealFloat___gt__(Contract):
     target = 'fpy2.number.number.reals:RealFloat.__gt__'
     params = {'self': 'RealFloat', 'other': 'RealFloat'}
     returns = 'bool'
@@ -38,7 +38,7 @@ class RealFloat___gt__(Contract):
         return {}
 
 
-class RealFloat___lt__(Contract):
+class C14h_RealFloat___lt__(Contract):
     target = 'fpy2.number.number.reals:RealFloat.__lt__'
     params = {'self': 'RealFloat', 'other': 'RealFloat'}
     returns = 'bool'
@@ -56,7 +56,7 @@ class RealFloat___lt__(Contract):
         return {}
 
 
-class RealFloat___ge__(Contract):
+class C14h_RealFloat___ge__(Contract):
     target = 'fpy2.number.number.reals:RealFloat.__ge__'
     params = {'self': 'RealFloat', 'other': 'RealFloat'}
     returns = 'bool'
@@ -74,7 +74,7 @@ class RealFloat___ge__(Contract):
         return {}
 
 
-class RealFloat___le__(Contract):
+class C14h_RealFloat___le__(Contract):
     target = 'fpy2.number.number.reals:RealFloat.__le__'
     params = {'self': 'RealFloat', 'other': 'RealFloat'}
     returns = 'bool'
@@ -95,7 +95,7 @@ class RealFloat___le__(Contract):
 # ---------------------------------------------------------------------------
 # exact RealFloat arithmetic on the ghost grid (used for the bounds and for the members' exact sums)
 
-class RealFloat___add__(Contract):
+class C14h_RealFloat___add__(Contract):
     target = 'fpy2.number.number.reals:RealFloat.__add__'
     params = {'self': 'RealFloat', 'other': 'RealFloat'}
     returns = 'RealFloat'
@@ -122,7 +122,7 @@ class RealFloat___add__(Contract):
         return {}
 
 
-class RealFloat___neg__(Contract):
+class C14h_RealFloat___neg__(Contract):
     target = 'fpy2.number.number.reals:RealFloat.__neg__'
     params = {'self': 'RealFloat'}
     returns = 'RealFloat'
@@ -136,7 +136,7 @@ class RealFloat___neg__(Contract):
         return {}
 
 
-class RealFloat___abs__(Contract):
+class C14h_RealFloat___abs__(Contract):
     target = 'fpy2.number.number.reals:RealFloat.__abs__'
     params = {'self': 'RealFloat'}
     returns = 'RealFloat'
@@ -457,6 +457,7 @@ class C14_sub_special(Lemma):
                  'B.pos_bound': 'RealFloat | PosInf', 'B.neg_bound': 'RealFloat | NegInf'}
     split = ['A.prec', 'A.exp', 'A.pos_bound', 'A.neg_bound']
     properties = ['C14']
+    no_use = ['RealFloat.__sub__']      # x - y inlined as x + (-y): the C05 contract of __sub__ (added later) does not give the result exponent
     options = {'light_first': True, 'theory_light': True}
 
     def pre(A, B, a, b):
@@ -485,6 +486,7 @@ class C14_sub_finite(Lemma):
                  'B.pos_bound': 'RealFloat | PosInf', 'B.neg_bound': 'RealFloat | NegInf'}
     split = ['A.prec', 'A.exp', 'A.pos_bound', 'A.neg_bound']
     properties = ['C14']
+    no_use = ['RealFloat.__sub__']      # x - y inlined as x + (-y): the C05 contract of __sub__ (added later) does not give the result exponent
     options = {'light_first': True, 'theory_light': True}
 
     def pre(A, B, a, b):
@@ -578,6 +580,7 @@ class C14_sub_prec(Lemma):
                  'B.pos_bound': 'RealFloat | PosInf', 'B.neg_bound': 'RealFloat | NegInf'}
     split = ['A.prec', 'A.exp', 'A.pos_bound', 'A.neg_bound']
     properties = ['C14']
+    no_use = ['RealFloat.__sub__']      # x - y inlined as x + (-y): the C05 contract of __sub__ (added later) does not give the result exponent
     options = {'light_first': True, 'bounded_fallback': 8, 'bounded_ms': 30000}
 
     def pre(A, B, a, b):
